@@ -86,9 +86,10 @@ def audit(name, tier='quick'):
                 os.unlink('/var/tmp/vf_seed_%s_demo%d' % (name, k))
             except OSError:
                 pass
-        tag = 'alt_%s_' % hashlib.md5(os.path.realpath(scratch).encode()).hexdigest()[:8]
+        h8 = hashlib.md5(os.path.realpath(scratch).encode()).hexdigest()[:8]
+        tag = 'alt_%s_' % h8
         for b in os.listdir(os.path.join(V, 'build')):
-            if b.startswith(tag):
+            if b.startswith(tag) or b in ('log_alt_' + h8, 'replay_alt_' + h8):
                 shutil.rmtree(os.path.join(V, 'build', b), ignore_errors=True)
     json.dump(res, open(os.path.join(d, 'audit.json'), 'w'), indent=1)
     return res
